@@ -10,7 +10,9 @@ EXTENDS Integers, Sequences, FiniteSets, TLC, Json
 (* ---------------- part 1: outcome table ---------------- *)
 \* MITMGETviaRej / MITMHEADviaRej: a request inside an intercepted session whose own CONNECT - sent by the proxy's
 \* transport to the upstream proxy - is what gets rejected
-Kinds == {"GET", "POST", "HEAD", "CONNECT", "GETviaProxy", "CONNECTviaProxy", "MITMGET", "MITMGETviaRej", "MITMHEADviaRej"}
+\* GEThandler: the http.Handler variant of the proxy (net/http's server in front): a reply cut after its head must not reach
+\* the client as a complete message there either
+Kinds == {"GET", "POST", "HEAD", "CONNECT", "GETviaProxy", "CONNECTviaProxy", "MITMGET", "MITMGETviaRej", "MITMHEADviaRej", "GEThandler"}
 TlsFaults == {"tls_garbage", "tls_untrusted", "tls_expired", "tls_wrongname",
               \* the origin only speaks a protocol version the proxy does not accept (TLS 1.0); the origin takes the
               \* ClientHello and never answers (the handshake time-out of the transport ends the wait)
@@ -31,7 +33,8 @@ Faults == {"dial_refused", "dial_timeout"} \cup TlsFaults \cup {
            "bad_status_line", "bad_field", "bad_field_ctl", "bad_value_ctl", "bogus_101", "bad_chunk_size", "bad_gzip", "trailing_garbage", "none"}
 \* which faults can occur for which kind of request
 Applies(f, k) ==
-  CASE k \in {"MITMGETviaRej", "MITMHEADviaRej"} -> f \in {"proxy_connect_403", "proxy_connect_407", "proxy_connect_502", "proxy_connect_403_body", "proxy_connect_302", "proxy_connect_100"}
+  CASE k = "GEThandler" -> f \in {"cut_body_cl", "cut_body_chunked", "rst_body", "rst_body_eof", "none"}
+    [] k \in {"MITMGETviaRej", "MITMHEADviaRej"} -> f \in {"proxy_connect_403", "proxy_connect_407", "proxy_connect_502", "proxy_connect_403_body", "proxy_connect_302", "proxy_connect_100"}
     [] f \in {"proxy_stall", "proxy_tls_stall"} -> k = "CONNECTviaProxy"
     [] f \in TlsFaults -> k = "MITMGET"
     [] f \in {"proxy_connect_403", "proxy_connect_407", "proxy_connect_502", "proxy_connect_403_body", "proxy_connect_302", "proxy_connect_100"} -> k \in {"CONNECTviaProxy", "MITMGETviaRej", "MITMHEADviaRej"}
